@@ -16,7 +16,7 @@ def gen_case(rng):
     k = rng.choice([t for t in range(1, 8) if t % ts != 0])
     return {'kind': 'deadwriter', 'slow_ts': ts, 'delete_at': k, 'delta': rng.choice([1, 4, 10]),
             'ticks': k + rng.choice([ts, ts + 1, 2 * ts]), 'reaper_first': rng.random() < 0.5,
-            'regen': rng.random() < 0.4}
+            'regen': rng.random() < 0.4, 'replace': rng.random() < 0.25}
 
 
 def corpus():
@@ -24,7 +24,10 @@ def corpus():
             {'kind': 'deadwriter', 'slow_ts': 3, 'delete_at': 4, 'delta': 10, 'ticks': 8, 'reaper_first': True},
             # F40: another update of the same batch generates a compartment with the same key
             {'kind': 'deadwriter', 'slow_ts': 4, 'delete_at': 1, 'delta': 1, 'ticks': 6, 'reaper_first': True,
-             'regen': True}]
+             'regen': True},
+            # F51: the compartment's process is replaced in place (a `_generate` with the same key, no deletion)
+            {'kind': 'deadwriter', 'slow_ts': 4, 'delete_at': 1, 'delta': 1, 'ticks': 6, 'reaper_first': True,
+             'regen': True, 'replace': True}]
 
 
 def run_impl(case):
@@ -51,7 +54,7 @@ def run_impl(case):
 
         def next_update(self, timestep, states):
             self.n += 1
-            if self.n == case['delete_at'] and 'a' in states['agents']:
+            if self.n == case['delete_at'] and 'a' in states['agents'] and not case.get('replace'):
                 return {'agents': {'_delete': ['a']}}
             return {}
 
@@ -86,7 +89,7 @@ def run_impl(case):
         parts = [('reaper', Reaper(), {'agents': ('agents',)}), ('agents', agents, agents_topo)]
         if not case['reaper_first']:
             parts.reverse()
-        if case.get('regen'):
+        if case.get('regen') or case.get('replace'):
             # applied after the deletion, in the same batch
             parts.append(('regen', Regen(), {'agents': ('agents',)}))
         eng = Engine(processes={n: p for n, p, _ in parts}, topology={n: t for n, _, t in parts},
@@ -111,7 +114,13 @@ def oracle(case, impl):
     if impl.get('raised'):
         return [f'engine-raised: {impl["raised"]}']
     for t, total, agents, fresh_n in impl['values']:
-        if case.get('regen') and t >= case['delete_at']:
+        if case.get('replace') and t >= case['delete_at']:
+            want = case['delete_at'] // case['slow_ts'] + (t - case['delete_at'])
+            if fresh_n != want:
+                return [f'fresh-start: the process of the compartment was replaced in place at t={case["delete_at"]} (a '
+                        f'`_generate` with the same key); at t={t} the counter (old process: +1 per {case["slow_ts"]}, '
+                        f'new one: +1 per time unit from its creation) reads {fresh_n}, expected {want}']
+        elif case.get('regen') and t >= case['delete_at']:
             if fresh_n != t - case['delete_at']:
                 return [f'fresh-start: a compartment with the same key was generated in the batch of the deletion '
                         f'(t={case["delete_at"]}); at t={t} its process (+1 per time unit) has counted {fresh_n}, '
@@ -121,6 +130,6 @@ def oracle(case, impl):
             return [f'frame: the compartment was deleted at t={case["delete_at"]} with an update of its process '
                     f'(timestep {case["slow_ts"]}) in flight; at t={t} the store outside it holds {total}, the '
                     f'intervals that ended before the deletion give {case["delta"] * done}']
-        if t >= case['delete_at'] and 'a' in agents and not case.get('regen'):
+        if t >= case['delete_at'] and 'a' in agents and not case.get('regen') and not case.get('replace'):
             return [f'delete: the compartment is still there at t={t}']
     return []
